@@ -24,6 +24,19 @@ type c01Witness struct {
 	Mod    func(*codegen.Configuration)
 }
 
+func wUnionOwnDisc(required, nullable bool) J {
+	member := func() J {
+		return J{"type": "object", "required": []interface{}{"kind"}, "properties": J{"kind": J{"type": "string"}, "name": J{"type": "string"}}}
+	}
+	pet := J{"type": "object", "properties": J{"kind": J{"type": "string", "nullable": nullable}},
+		"oneOf":         []interface{}{J{"$ref": "#/components/schemas/Cat"}, J{"$ref": "#/components/schemas/Dog"}},
+		"discriminator": J{"propertyName": "kind"}}
+	if required {
+		pet["required"] = []interface{}{"kind"}
+	}
+	return wDoc(J{}, J{"schemas": J{"Cat": member(), "Dog": member(), "Pet": pet}})
+}
+
 func wDoc(paths J, comps J) J {
 	d := J{"openapi": "3.0.3", "info": J{"title": "w", "version": "1"}, "paths": paths}
 	if comps != nil {
@@ -103,6 +116,14 @@ func c01Witnesses() []c01Witness {
 			Doc: wDoc(J{"/a/{Type}/{range_}/{_func}": J{"get": wOp("getA", J{"parameters": []interface{}{
 				J{"name": "Type", "in": "path", "required": true, "schema": J{"type": "string"}}, J{"name": "range_", "in": "path", "required": true, "schema": J{"type": "string"}},
 				J{"name": "_func", "in": "path", "required": true, "schema": J{"type": "integer"}}}})}}, nil)},
+		// a union that declares its own discriminator property: From/Merge assign the mapped value to a field that is a
+		// plain string (required), a pointer (optional, or required and nullable) or nullable.Nullable (nullable-type)
+		{Name: "union-own-discriminator-required-nullable", Doc: wUnionOwnDisc(true, true)},
+		{Name: "union-own-discriminator-optional-nullable", Doc: wUnionOwnDisc(false, true)},
+		{Name: "union-own-discriminator-required-nullable-type", Doc: wUnionOwnDisc(true, true),
+			Mod: func(c *codegen.Configuration) { c.OutputOptions.NullableType = true }},
+		{Name: "union-own-discriminator-optional-nullable-type", Doc: wUnionOwnDisc(false, true),
+			Mod: func(c *codegen.Configuration) { c.OutputOptions.NullableType = true }},
 		{Name: "leading-digit-schema-with-nested-map",
 			Doc: wDoc(J{}, J{"schemas": J{"1st": objWith(J{"count": J{"type": "object", "properties": J{"n": J{"type": "string"}}, "additionalProperties": J{"type": "integer"}}})}})},
 	}
